@@ -330,6 +330,25 @@ func runC17(c *eng.Ctx, tier string) {
 						detail = "time.After(" + time.Duration(d).String() + ")"
 					}
 				}
+				// ... or the channel of a timer created afresh in this round:
+				// time.NewTimer(d).C with the NewTimer call inside the loop,
+				// before the select, and never Reset
+				if fr, base, isF := eng.LoadedField(st.Chan); isF && fr.Name == "C" && eng.IsNamed(fr.Owner, "time", "Timer") {
+					if tc, _ := eng.TupleCall(base); tc != nil && eng.CalleeIs(&tc.Call, "time", "NewTimer") {
+						if d, isC := eng.ConstInt(tc.Call.Args[0]); isC {
+							reset := false
+							if refs := tc.Referrers(); refs != nil {
+								for _, r := range *refs {
+									if rc, isRC := r.(ssa.CallInstruction); isRC && eng.CalleeIs(rc.Common(), "time", "*Timer.Reset") {
+										reset = true
+									}
+								}
+							}
+							okk = time.Duration(d) >= time.Minute && eng.InCycle(tc.Block()) && eng.InstrDominates(tc, q.sel) && !reset
+							detail = "time.NewTimer(" + time.Duration(d).String() + ").C"
+						}
+					}
+				}
 			}
 			c.Check(okk, "R-C17-2", task, q.sel.Pos(), "wake-up source of the select: "+detail, "besides cancellation the task only wakes on time.After(d), constant d >= 1m (at most one upload a minute)", detail)
 		}
@@ -564,7 +583,11 @@ func c17Body(c *eng.Ctx, f *ssa.Function) {
 							return false
 						}
 						rv := eng.RetVals(r)
-						return !(eng.Same(rv[0], ev) || nonNilAt(rv[0], eng.FactsAt(r)) == eng.Yes)
+						ri := errResultIndex(f)
+						if ri < 0 || ri >= len(rv) {
+							return true
+						}
+						return !(eng.Same(rv[ri], ev) || nonNilAt(rv[ri], eng.FactsAt(r)) == eng.Yes)
 					})
 					tested := false
 					eng.Instrs(f, func(x ssa.Instruction) {
